@@ -7,7 +7,7 @@ import traceback
 def run(repo, outdir):
     import gen_opcode
     gens = {"OpcodeTable_gen.v": gen_opcode.generate}
-    for extra in ("gen_kernels", "gen_tables", "gen_opmap", "gen_stdlib", "gen_statics", "gen_interval", "gen_fpenv", "gen_keep", "gen_build", "gen_heightmap", "gen_dtor", "gen_render", "gen_progress", "gen_setvar", "gen_toracle"):
+    for extra in ("gen_kernels", "gen_tables", "gen_opmap", "gen_stdlib", "gen_statics", "gen_interval", "gen_fpenv", "gen_keep", "gen_build", "gen_heightmap", "gen_dtor", "gen_render", "gen_progress", "gen_setvar", "gen_toracle", "gen_serial"):
         try:
             mod = __import__(extra)
             gens.update(mod.generators())
